@@ -306,7 +306,14 @@ func Write(m *Model, lay Layout) string {
 		hdrs = append(a, b...)
 	}
 	unknown := []func(){
-		func() { w.line("EncodingScheme", "FontSpecific") },
+		func() {
+			// the scheme a file declares says nothing about which glyphs it has: the codes are on the C lines
+			if lay[LUnknownHdr] == 2 {
+				w.line("EncodingScheme", "AdobeStandardEncoding")
+			} else {
+				w.line("EncodingScheme", "FontSpecific")
+			}
+		},
 		func() { w.line("FamilyName", "Bogus") },
 		func() { w.line("Weight", "Roman") },
 		func() { w.line("FontBBox", "-168", "-218", "1000", "898") },
